@@ -170,13 +170,17 @@ theorem cap_end_general (c : Config) (s : State) (pre : List Nat) (g : Nat) (h :
   · refine ⟨?_, ?_, fun h' => absurd h' he⟩ <;> simp [step, deserStep, h.hfsm, idleC, staleOf, he]
 
 /-- **One arbitrary packet from a packet boundary, exactly.**  Whatever the packet (its bytes, its
-timing, the don't-care data of its byte-less cycles): afterwards the composition is at a packet
+timing, the don't-care data of its byte-less cycles; at least 2 idle cycles after a packet that
+starts with a data PID, and the handshake gap of `delay + 3` idle cycles after a packet that is
+reported): afterwards the composition is at a packet
 boundary again, its abstract state is what the packet-level `specStep` says, and the events it
 caused — with their cycle numbers — are exactly: nothing, or (iff `specStep` reports) the report in
 the cycle in which the deserializer strobe is seen together with exactly one ACK, in that same cycle
 at high speed (or if the timer reads `delay` just then), and `delay + 1` cycles later otherwise. -/
 theorem packet_exact (c : Config) (hc : c.delay ≤ c.counterMax + 1) (p : RxPacket) (s : State) (hs : Boundary s)
-    (hw : p.wf) (hg : gapOk c p) (hb : ∀ b ∈ p.bytes, b < 256) (t : Nat) :
+    (hw : p.wf) (hb : ∀ b ∈ p.bytes, b < 256)
+    (hg2 : (∃ pid rest, p.bytes = pid :: rest ∧ isDataPid pid = true) → 2 ≤ p.gap.length)
+    (hg3 : (specStep c.addr (absOf s) p.bytes).2 ≠ none → c.delay + 3 ≤ p.gap.length) (t : Nat) :
     Boundary (final c s (render p)) ∧
     absOf (final c s (render p)) = (specStep c.addr (absOf s) p.bytes).1 ∧
     ttrace c s (render p) t =
@@ -322,23 +326,28 @@ theorem packet_exact (c : Config) (hc : c.delay ≤ c.counterMax + 1) (p : RxPac
         have hstr' : dsStrobes (staleOf s) (sl.map (·.1)) = true := hstr
         rw [hstr'] at hnp3
         obtain ⟨len3, hfit, pk3, cgi⟩ := hpk3 hnp3
-        have hlong : c.delay + 3 ≤ (g :: gs).length :=
-          hg ⟨b0, sl.map (·.1), by simp [RxPacket.bytes], hp⟩
-        match gs, hlong with
-        | g2 :: gs3, hlong =>
+        have h8 : ((sl.length + 14) % 16 == 8) = (sl.length == 10) := by
+          rw [Bool.eq_iff_iff]; simp; omega
+        have hcondeq : (S3.dec.fsm == .readData && (S3.ds.length == 8 && S3.tok.pid == SETUP_PID))
+            = (armedB s && sl.length == 10) := by
+          rw [← harm, dec3, hpid3, len3, h8]
+          cases (s.tok.pid == SETUP_PID) <;> cases ((step c s (waitC d)).1.dec.fsm == DecFsm.readData) <;>
+            cases (sl.length == 10) <;> rfl
+        have hlong3 : (armedB s && sl.length == 10) = true → c.delay + 3 ≤ (g :: gs).length := by
+          intro h
+          apply hg3
+          have h' : armedB s = true ∧ sl.length = 10 := by simpa using h
+          simp [RxPacket.bytes, specStep, hp, hstr', absOf, h'.1, h'.2]
+        have hlong2 : 2 ≤ (g :: gs).length := hg2 ⟨b0, sl.map (·.1), by simp [RxPacket.bytes], hp⟩
+        match gs, hlong2, hlong3 with
+        | g2 :: gs3, _, hlong3 =>
           obtain ⟨u1, u2, u3, u4⟩ := strobe_tail c hc S3 g2 gs3 tp1 f2 hnp3 hnt3 f3 hlen3
-            (by simp at hlong; omega) (t + strobeIndex ⟨d :: ds, (b0, w0) :: sl, g :: g2 :: gs3⟩)
+            (by intro h; rw [hcondeq] at h; have := hlong3 h; simp at this; omega)
+            (t + strobeIndex ⟨d :: ds, (b0, w0) :: sl, g :: g2 :: gs3⟩)
           simp only [List.map_cons]
           refine ⟨u1, ?_, ?_⟩
           · simp [absOf, u2, u3, hst3]
           · rw [u4]
-            have h8 : ((sl.length + 14) % 16 == 8) = (sl.length == 10) := by
-              rw [Bool.eq_iff_iff]; simp; omega
-            have hcondeq : (S3.dec.fsm == .readData && (S3.ds.length == 8 && S3.tok.pid == SETUP_PID))
-                = (armedB s && sl.length == 10) := by
-              rw [← harm, dec3, hpid3, len3, h8]
-              cases (s.tok.pid == SETUP_PID) <;> cases ((step c s (waitC d)).1.dec.fsm == DecFsm.readData) <;>
-                cases (sl.length == 10) <;> rfl
             rw [hcondeq]
             cases hcond : (armedB s && sl.length == 10) with
             | false => simp [expectT, absOf, hcond]
